@@ -43,7 +43,7 @@ fn contents(k: u64, root: bool) -> Vec<u8> {
 /// is directory, parent index or usize::MAX, location offset). Node 0 is the root.
 type MemShape = (&'static str, &'static [(&'static str, &'static str, bool, usize, usize)]);
 const NOPARENT: usize = usize::MAX;
-const MEM_SHAPES: [MemShape; 19] = [
+const MEM_SHAPES: [MemShape; 21] = [
     ("root-file", &[("pkg.roto", "pkg", false, NOPARENT, 0)]),
     ("root-file-module-named-main", &[("main.roto", "main", false, NOPARENT, 0)]),
     ("root-dir-no-children", &[("pkg.roto", "pkg", true, NOPARENT, 0)]),
@@ -78,6 +78,16 @@ const MEM_SHAPES: [MemShape; 19] = [
         &[("pkg.roto", "pkg", true, NOPARENT, 0), ("a.roto", "a", true, 0, 0), ("a/v.roto", "v", false, 1, 0)],
     ),
     (
+        "root+module-named-a.b+dir-a+a/b (two modules whose items get the same dotted name)",
+        &[
+            ("pkg.roto", "pkg", true, NOPARENT, 0),
+            ("a.b.roto", "a.b", false, 0, 0),
+            ("a/mod.roto", "a", true, 0, 0),
+            ("a/b.roto", "b", false, 2, 0),
+        ],
+    ),
+    ("root+module-named-pkg.a+a", &[("pkg.roto", "pkg", true, NOPARENT, 0), ("x.roto", "pkg.a", false, 0, 0), ("a.roto", "a", false, 0, 0)]),
+    (
         "root+a+k (module named like a function)",
         &[("pkg.roto", "pkg", true, NOPARENT, 0), ("a.roto", "a", false, 0, 0), ("k.roto", "k", false, 0, 0)],
     ),
@@ -87,7 +97,7 @@ const MEM_SHAPES: [MemShape; 19] = [
 /// entries (path, contents; a path ending in '/' is a directory), entry
 /// handed to `FileTree::read` relative to the directory ("" = the directory)).
 type DiskShape = (&'static str, &'static [&'static str], &'static [(&'static str, &'static str)], &'static str);
-const DISK_SHAPES: [DiskShape; 22] = [
+const DISK_SHAPES: [DiskShape; 28] = [
     ("dir{pkg}", &["pkg.roto"], &[], ""),
     ("single-file pkg.roto", &["pkg.roto"], &[], "pkg.roto"),
     ("single-file main.roto", &["main.roto"], &[], "main.roto"),
@@ -109,6 +119,12 @@ const DISK_SHAPES: [DiskShape; 22] = [
     ("dir{pkg,a/mod,a/pkg}", &["pkg.roto", "a/mod.roto", "a/pkg.roto"], &[], ""),
     ("dir{pkg,a/b} (a/ has no mod.roto)", &["pkg.roto", "a/b.roto"], &[], ""),
     ("dir{pkg,a,k}", &["pkg.roto", "a.roto", "k.roto"], &[], ""),
+    ("dir{pkg,a.b/mod,a/mod(empty),a/b}", &["pkg.roto", "a.b/mod.roto", "a/b.roto"], &[("a/mod.roto", "")], ""),
+    ("dir{pkg,a.b.roto,a/mod(empty),a/b}", &["pkg.roto", "a.b.roto", "a/b.roto"], &[("a/mod.roto", "")], ""),
+    ("dir{pkg,a.b}", &["pkg.roto", "a.b.roto"], &[], ""),
+    ("dir{pkg,a b}", &["pkg.roto", "a b.roto"], &[], ""),
+    ("dir{pkg,pkg.a.roto,a}", &["pkg.roto", "pkg.a.roto", "a.roto"], &[], ""),
+    ("dir{pkg,fn.roto}", &["pkg.roto", "fn.roto"], &[], ""),
     ("dir{pkg,a/mod,a/b/mod}", &["pkg.roto", "a/mod.roto", "a/b/mod.roto"], &[], ""),
 ];
 
@@ -135,7 +151,7 @@ pub fn count_disk(_cfg: &Cfg) -> u64 {
 }
 pub fn bounds(cfg: &Cfg) -> Value {
     json!({"content_kinds": CONTENT_KINDS, "memory_shapes": MEM_SHAPES.len(), "disk_shapes": DISK_SHAPES.len(),
-           "memory_cases": count_mem(cfg), "disk_cases": count_disk(cfg), "max_files": 3})
+           "memory_cases": count_mem(cfg), "disk_cases": count_disk(cfg), "max_files": 4})
 }
 
 pub fn case_mem(_cfg: &Cfg, idx: u64) -> (Input, Value) {
